@@ -210,3 +210,92 @@ Qed.
 Lemma base64_text_len_l : forall s, bytes_ok s ->
   b64_text (base64_encode s) /\ length (base64_encode s) = (4 * ((length s + 2) / 3))%nat.
 Proof. intros s H. split; [apply base64_text_l; exact H|apply base64_length_l]. Qed.
+
+(* ------------------------------------------------------------------ base64_decode accepts exactly the base64 texts *)
+Lemma list_ind4 : forall (P : bytes -> Prop),
+  P [] -> (forall a, P [a]) -> (forall a b, P [a; b]) -> (forall a b c, P [a; b; c]) ->
+  (forall a b c d r, P r -> P (a :: b :: c :: d :: r)) -> forall l, P l.
+Proof.
+  intros P H0 H1 H2 H3 H4. fix IH 1. intros l.
+  destruct l as [|a [|b [|c [|d r]]]]; [exact H0|apply H1|apply H2|apply H3|apply H4; apply IH].
+Qed.
+
+Lemma b64_val_alpha : forall c, (exists v, b64_val c = Some v) <-> b64_alpha c.
+Proof.
+  intros c. unfold b64_val, b64_alpha. split.
+  - intros (v & H).
+    repeat match type of H with context [if ?b then _ else _] => destruct b eqn:? end; try discriminate; lia.
+  - intros H. split_ifs; eauto; lia.
+Qed.
+Lemma b64_val_none : forall c, b64_val c = None -> ~ b64_alpha c.
+Proof. intros c H Ha. apply b64_val_alpha in Ha. destruct Ha as (v & Hv). congruence. Qed.
+
+Lemma b64_quanta_sound : forall t s, b64_quanta t = Some s -> b64_text t.
+Proof.
+  induction t as [| a | a b | a b c | a b c d r IH] using list_ind4; intros s H; cbn [b64_quanta] in H;
+    try discriminate; [constructor|].
+  destruct (b64_val a) as [v0|] eqn:E0; [|discriminate].
+  destruct (b64_val b) as [v1|] eqn:E1; [|discriminate].
+  assert (Ha : b64_alpha a) by (apply b64_val_alpha; eauto).
+  assert (Hb : b64_alpha b) by (apply b64_val_alpha; eauto).
+  destruct (b64_val c) as [v2|] eqn:E2.
+  - assert (Hc : b64_alpha c) by (apply b64_val_alpha; eauto).
+    destruct (b64_val d) as [v3|] eqn:E3.
+    + assert (Hd : b64_alpha d) by (apply b64_val_alpha; eauto).
+      destruct (b64_quanta r) as [t'|] eqn:ER; [|discriminate].
+      apply bt_full; try assumption. eapply IH; reflexivity.
+    + destruct ((d =? 61) && is_nil r) eqn:EP; [|discriminate].
+      apply andb_prop in EP. destruct EP as [Ed Er]. destruct r; [|discriminate].
+      assert (d = 61) by lia. subst. apply bt_pad1; assumption.
+  - destruct ((c =? 61) && (d =? 61) && is_nil r) eqn:EP; [|discriminate].
+    apply andb_prop in EP. destruct EP as [EP Er]. apply andb_prop in EP. destruct EP as [Ec Ed].
+    destruct r; [|discriminate]. assert (c = 61) by lia. assert (d = 61) by lia. subst.
+    apply bt_pad2; assumption.
+Qed.
+
+Lemma b64_quanta_complete : forall t, b64_text t -> exists s, b64_quanta t = Some s.
+Proof.
+  induction 1 as [|c0 c1 c2 c3 r H0 H1 H2 H3 Hr [s IH]|c0 c1 c2 H0 H1 H2|c0 c1 H0 H1].
+  - exists []. reflexivity.
+  - apply b64_val_alpha in H0, H1, H2, H3.
+    destruct H0 as (v0 & E0), H1 as (v1 & E1), H2 as (v2 & E2), H3 as (v3 & E3).
+    cbn [b64_quanta]. rewrite E0, E1, E2, E3, IH. eauto.
+  - apply b64_val_alpha in H0, H1, H2.
+    destruct H0 as (v0 & E0), H1 as (v1 & E1), H2 as (v2 & E2).
+    cbn [b64_quanta]. rewrite E0, E1, E2, b64_val_pad. cbn. eauto.
+  - apply b64_val_alpha in H0, H1. destruct H0 as (v0 & E0), H1 as (v1 & E1).
+    cbn [b64_quanta]. rewrite E0, E1, b64_val_pad. cbn. eauto.
+Qed.
+
+Lemma base64_accepts_iff_l : forall d,
+  (exists s, base64_decode d = Some s) <-> b64_text (filter (fun c => negb (is_nl c)) d).
+Proof.
+  intros d. unfold base64_decode. split.
+  - intros (s & H). eapply b64_quanta_sound; eauto.
+  - apply b64_quanta_complete.
+Qed.
+
+(* ------------------------------------------------------------------ urldecode / rawurldecode: when the fallback is taken *)
+Inductive pct_escaped : bytes -> Prop :=     (* every '%' is followed by two hex digits *)
+| pe_nil : pct_escaped []
+| pe_pct : forall h l r a b, unhex h = Some a -> unhex l = Some b -> pct_escaped r -> pct_escaped (37 :: h :: l :: r)
+| pe_other : forall c r, c <> 37 -> pct_escaped r -> pct_escaped (c :: r).
+
+Lemma unescape_accepts_iff_l : forall plus s, (exists t, unescape plus s = Some t) <-> pct_escaped s.
+Proof.
+  intros plus s. split.
+  - assert (G : forall n s, (length s <= n)%nat -> (exists t, unescape plus s = Some t) -> pct_escaped s).
+    { induction n as [|n IH]; intros s0 Hl (t & H); destruct s0 as [|c r]; [apply pe_nil|cbn [length] in Hl; lia|apply pe_nil|]; cbn [length] in Hl.
+      cbn [unescape] in H. destruct (c =? 37) eqn:E.
+      - assert (c = 37) by lia. subst. destruct r as [|h [|l r']]; try discriminate.
+        destruct (unhex h) as [a|] eqn:Eh; [|discriminate]. destruct (unhex l) as [b|] eqn:El; [|discriminate].
+        destruct (unescape plus r') as [t'|] eqn:Er; [|discriminate].
+        apply (pe_pct h l r' a b Eh El). apply IH; [cbn [length] in Hl; lia|eauto].
+      - destruct (unescape plus r) as [t'|] eqn:Er; [|discriminate].
+        apply pe_other; [lia|]. apply IH; [lia|eauto]. }
+    apply (G (length s) s). lia.
+  - induction 1 as [|h l r a b Hh Hl Hr [t IH]|c r Hc Hr [t IH]].
+    + exists []. reflexivity.
+    + exists ((a * 16 + b) :: t). cbn [unescape]. change (37 =? 37) with true. cbv iota. rewrite Hh, Hl, IH. reflexivity.
+    + eexists. cbn [unescape]. replace (c =? 37) with false by lia. rewrite IH. reflexivity.
+Qed.
